@@ -843,6 +843,14 @@ class SymReal:
             return _wrap(self.e / z)  # z3 integer division: floor for positive divisors
         return _wrap(z3.ToInt(_real(self.e) / _real(z)))
 
+    def __rfloordiv__(self, o):
+        z = self._other(o)
+        if z is None:
+            return NotImplemented
+        if self.is_int() and z.sort() == z3.IntSort():
+            return _wrap(z / self.e)
+        return _wrap(z3.ToInt(_real(z) / _real(self.e)))
+
     def __mod__(self, o):
         z = self._other(o)
         if z is None:
@@ -1120,6 +1128,11 @@ class SymComplex:
         return self.im
 
     def __abs__(self):
+        # |x + 0i| = |x| exactly: keeps single-phase networks linear
+        if is_concrete_num(self.im) and self.im == 0:
+            return abs(self.re)
+        if is_concrete_num(self.re) and self.re == 0:
+            return abs(self.im)
         s = self.re * self.re + self.im * self.im
         if isinstance(s, SymReal):
             return SymNorm(s)
